@@ -28,16 +28,18 @@ type pair struct {
 }
 
 type result struct {
-	Id         string `json:"id"`
-	Invoke     string `json:"invoke"`      // "" or error starting the original
-	Reattach   string `json:"reattach"`    // accepted | refused | error
-	Detail     string `json:"detail"`      // error text
-	CompilesB  bool   `json:"compiles_b"`  // the edited program compiles
-	EquivAB    string `json:"equiv_ab"`    // EquivalentCall(new, old): true | false | n/a
-	EquivBA    string `json:"equiv_ba"`
-	LockedRW   string `json:"locked_rw"`   // write attach while the first mrp holds the lock
-	LockedRO   string `json:"locked_ro"`   // read-only attach meanwhile
-	SecondHeld string `json:"second_held"` // write attach while the re-attached mrp holds the lock
+	Id            string `json:"id"`
+	Invoke        string `json:"invoke"`     // "" or error starting the original
+	Reattach      string `json:"reattach"`   // accepted | refused | error
+	Detail        string `json:"detail"`     // error text
+	CompilesB     bool   `json:"compiles_b"` // the edited program compiles
+	EquivAB       string `json:"equiv_ab"`   // EquivalentCall(new, old): true | false | n/a
+	EquivBA       string `json:"equiv_ba"`
+	LockedRW      string `json:"locked_rw"`       // write attach while the first mrp holds the lock
+	LockedRO      string `json:"locked_ro"`       // read-only attach meanwhile
+	SecondHeld    string `json:"second_held"`     // write attach while the re-attached mrp holds the lock
+	EditedRO      string `json:"edited_ro"`       // read-only attach with the edited definitions while the first mrp lives
+	LockedAfterRO string `json:"locked_after_ro"` // write attach after that
 }
 
 type devNull struct{}
@@ -111,6 +113,27 @@ func one(work string, pr *pair) result {
 		res.LockedRO = "accepted"
 	} else {
 		res.LockedRO = "refused: " + firstLine(err.Error())
+	}
+	// somebody inspects the live pipestance with the edited definitions (read-only; refused if
+	// the meaning changed); whatever the answer, the owner's lock must still keep writers out
+	mroDirB := path.Join(root, "mroB")
+	writeFiles(mroDirB, pr.FilesB)
+	invPathB := path.Join(root, "invocationB.mro")
+	os.WriteFile(invPathB, []byte(pr.InvB), 0644)
+	if _, err := newRt().ReattachToPipestance("ps", psdir, pr.InvB, invPathB, []string{mroDirB}, "v", map[string]string{}, true, true, ctx); err == nil {
+		res.EditedRO = "accepted"
+	} else {
+		res.EditedRO = "refused"
+	}
+	if p4, err := newRt().ReattachToPipestance("ps", psdir, pr.InvA, invPath, []string{mroDir}, "v", map[string]string{}, true, false, ctx); err == nil {
+		res.LockedAfterRO = "accepted"
+		p4.Unlock()
+	} else {
+		res.LockedAfterRO, _ = classify(err)
+	}
+	if res.LockedAfterRO == "accepted" {
+		// (the intruder removed the lock when it left; the owner is still there)
+		ps.Lock()
 	}
 	ps.Unlock() // the first mrp exits
 	// the operator edits the definitions and starts mrp again
